@@ -38,7 +38,7 @@ func swapControls(ctl *Ctx) []*RuleResult {
 func init() {
 	register(&propDef{
 		id:          "C17",
-		explanation: "Decides the 'who may write what' sentence and one clause of 'ints.Sort orders like the standard library': PURE (the ten non-mutating sortints functions write nothing reachable from any argument, package-level or captured state), FRESH (the slice they return shares no memory with an argument, so mutating the result later cannot change an argument), RECEIVER-ONLY (Add, Remove and the Union method write only memory rooted at their receiver, never the variadic x or b), both from E-EFF write summaries; SWAP (ints.Sort and all its helpers only permute cells of their slice, so the output is a rearrangement of the input); MARKCOUNT (where Add marks cells of its scratch slice with a sentinel and counts them at more than one place, each place knows the cell is not marked yet, so the count equals the number of marks); SENTINEL (no value that is a constant until it is set to an element - a 'previous element' tracker initialised with -1, say - is compared for equality with an element: elements are arbitrary ints); MAKESIZE (a make whose size is the difference of two inputs, such as n-len(a), is proved non-negative: nothing relates one argument to another unless the code checks it). It does not decide that results are the right sets or that Sort orders.",
+		explanation: "Decides the 'who may write what' sentence and one clause of 'ints.Sort orders like the standard library': PURE (the ten non-mutating sortints functions write nothing reachable from any argument, package-level or captured state), FRESH (the slice they return shares no memory with an argument, so mutating the result later cannot change an argument), RECEIVER-ONLY (Add, Remove and the Union method write only memory rooted at their receiver, never the variadic x or b), both from E-EFF write summaries; SWAP (ints.Sort and all its helpers only permute cells of their slice, so the output is a rearrangement of the input); MARKCOUNT (where Add marks cells of its scratch slice with a sentinel and counts them at more than one place, each place knows the cell is not marked yet, so the count equals the number of marks); SENTINEL (no value that is a constant until it is set to an element - a 'previous element' tracker initialised with -1, say - is compared for equality with an element: elements are arbitrary ints); MAKESIZE (a make whose size is the difference of two inputs, such as n-len(a), is proved non-negative: nothing relates one argument to another unless the code checks it); ARGINDEX (every index into an argument slice or the receiver's slice in the exported functions of sortints is proved within its length, with the documented result range of the standard binary searches as facts: the empty set is a legal argument). It does not decide that results are the right sets or that Sort orders.",
 		notDecided:  []string{"that each function returns the mathematically correct set / boolean / size (e.g. Range with negative step)", "that ints.Sort puts the elements in ascending order"},
 		assumptions: []string{"append into spare capacity of an argument counts as a write to that argument (it is visible to other slices sharing the array)"},
 		run: func(c *Ctx, tier string) []*RuleResult {
@@ -63,7 +63,9 @@ func init() {
 			ruleSentinel(c, sn, "sortints")
 			ruleSentinel(c, sn, "ints")
 			ms := ruleMakeSize(c, filesOf(c, "sortints.Complement", "sortints.Union", "sortints.NewSortedInts"))
-			return []*RuleResult{pure, ro, fr, ruleSwap(c, "SWAP", swapDoc, c17Swap, 7), mc, sc, sn, ms}
+			ai := ruleArgIndex(c, "sortints")
+			ai.MinInst = 20
+			return []*RuleResult{pure, ro, fr, ruleSwap(c, "SWAP", swapDoc, c17Swap, 7), mc, sc, sn, ms, ai}
 		},
 		controls: func(ctl *Ctx) []*RuleResult {
 			pure := &RuleResult{Rule: "PURE"}
@@ -83,7 +85,7 @@ func init() {
 			sn := &RuleResult{Rule: "SENTINEL"}
 			ruleSentinel(ctl, sn, "markctl")
 			ms := ruleMakeSize(ctl, inFiles("markctl.go"))
-			return append([]*RuleResult{pure, ro, fr, mc, sc, sn, ms}, swapControls(ctl)...)
+			return append([]*RuleResult{pure, ro, fr, mc, sc, sn, ms, ruleArgIndex(ctl, "argctl")}, swapControls(ctl)...)
 		},
 	})
 	register(&propDef{
